@@ -33,6 +33,41 @@
 namespace XERCES_CPP_NAMESPACE {
 
 // ---------------------------------------------------------------------------
+//  Local helpers
+// ---------------------------------------------------------------------------
+
+//  Drops leading and trailing spaces and reduces every run of spaces to a
+//  single one. Only #x20 is concerned: literal tabs and line ends have been
+//  turned into spaces when the value was scanned, so any of them still in
+//  the value comes from a character reference and belongs to the value.
+static void collapseSpaces(XMLCh* const toCollapse)
+{
+    const XMLCh* srcPtr = toCollapse;
+    XMLCh*       outPtr = toCollapse;
+
+    while (*srcPtr == chSpace)
+        srcPtr++;
+
+    while (*srcPtr)
+    {
+        if (*srcPtr == chSpace)
+        {
+            while (*srcPtr == chSpace)
+                srcPtr++;
+            if (!*srcPtr)
+                break;
+            *outPtr++ = chSpace;
+        }
+        else
+        {
+            *outPtr++ = *srcPtr++;
+        }
+    }
+    *outPtr = chNull;
+}
+
+
+// ---------------------------------------------------------------------------
 //  DTDValidator: Constructors and Destructor
 // ---------------------------------------------------------------------------
 DTDValidator::DTDValidator(XMLErrorReporter* const errReporter) :
@@ -236,7 +271,7 @@ DTDValidator::validateAttrValue(const   XMLAttDef*      attDef
     //   - attributes with tokenized types, where the attribute appears in the document with a value such that normalization will 
     //     produce a different value from that which would be produced in the absence of the declaration"
     if (collapseValue && (!isExternal || !getScanner()->getStandalone()))
-        XMLString::collapseWS(pszTmpVal, getScanner()->getMemoryManager());
+        collapseSpaces(pszTmpVal);
 
     XMLCh* valPtr = pszTmpVal;
 
